@@ -5,6 +5,7 @@ import (
 
 	"pgregory.net/rapid"
 
+	"qeepverif/lib"
 	"qeepverif/ref"
 )
 
@@ -388,5 +389,5 @@ func DrawVia(t *rapid.T) int {
 	if rapid.IntRange(0, 2).Draw(t, "viaplain") > 0 {
 		return 0
 	}
-	return rapid.IntRange(1, 6).Draw(t, "via")
+	return rapid.IntRange(1, lib.NViaModes-1).Draw(t, "via")
 }
